@@ -117,7 +117,10 @@ func mkKey(alg string, kb []byte, tag int, variant string, id uint32) (key.Key, 
 	return k, 0
 }
 
-func rawMAC(alg string, kb []byte, tag int) (tink.MAC, error) {
+// rawMAC hands a private copy of the key to the constructor and overwrites it afterwards.
+func rawMAC(alg string, kb0 []byte, tag int) (tink.MAC, error) {
+	kb := bytes.Clone(kb0)
+	defer hx.Scribble(kb)
 	if alg == "CMAC" {
 		return macsubtle.NewAESCMAC(kb, uint32(tag))
 	}
